@@ -20,6 +20,7 @@ import PoetryVerif.Proofs.PyConvIn
 import PoetryVerif.Proofs.PyConvLeafAlts
 import PoetryVerif.Proofs.VRangeOps
 import PoetryVerif.Proofs.MarkerProj
+import PoetryVerif.Proofs.PyConvWildRange
 
 set_option linter.unusedSimpArgs false
 set_option linter.unusedVariables false
@@ -104,7 +105,8 @@ example : createNestedMarker "python_version" .empty = .error .assertion := rfl
 the parser's result for `>=V`, `>V`, `<=V`, `<V`, `^V`, `~V`, `~=V` (and `==V` for three components) is one
 range constraint in `PyDom` — in both parser modes (`m`).  The wildcard forms `V.*`, `!=V.*` are outside: in
 `parse_constraint` their bounds are dev-releases (`>=3.8.dev0,<3.9.dev0`), literals the formalised reference
-(`Spec.Pep508`, final-release literals) does not cover; they are compared by the correspondence only. -/
+(`Spec.Pep508`, final-release literals) does not cover; `V.*` is proved against poetry's own evaluation below
+(`createNested_wildcard_partial`), `!=V.*` is compared by the correspondence only. -/
 theorem listed_operators_in_domain (a : Nat) (r : List Nat) (m : Bool) (h3 : (a :: r).length ≤ 3) :
     (∃ rc, parseSingle ('>' :: '=' :: relChars (a :: r)) m = .ok (.single rc) ∧ PyDom rc = true) ∧
     (∃ rc, parseSingle ('>' :: relChars (a :: r)) m = .ok (.single rc) ∧ PyDom rc = true) ∧
@@ -369,5 +371,33 @@ def C11_createNested_poetry_full_statement : Prop :=
   ∀ (E : Env) (c : VC) (X Y Z : Nat) (txt : String) (m : M), PyDomVC c = true → EnvPy E X Y Z →
     createNestedMarker "python_version" c = .ok txt → parseMarker txt = .ok m →
     M.validate E m = .ok (c.allowsPlain (pyV X Y Z))
+
+/-! ## wildcard ranges
+
+`python = "3.8.*"` is the range `>=3.8.dev0,<3.9.dev0`: its bounds are dev-releases, literals outside the formalised
+PEP 508 reference (`Spec.Pep508` compares final releases), so the conversion is stated against poetry's own
+`parse_marker` + `validate`, relative to the leaf specification for what `_compact_markers` builds. -/
+
+/-- **`X.Y.*` converts exactly**: `parse_constraint("a.b.*")` is `[a.b.dev0, a.(b+1).dev0)`, `create_nested_marker`
+prints `python_version >= "a.b.dev0" and python_version < "a.(b+1).dev0"`, and the marker read back validates, on
+the environment of interpreter `X.Y.Z`, to membership of `X.Y.Z` in the range. -/
+theorem createNested_wildcard_partial (E : Env) (S : LeafSpec (leafEval E) (CompLeaf E)) (X Y Z : Nat)
+    (hE : EnvPy E X Y Z) (a b : Nat) :
+    ∃ c, parseConstraint (Version.relText [a, b] ++ ".*") = .ok c ∧
+      ∀ txt m, createNestedMarker "python_version" c = .ok txt → parseMarker txt = .ok m →
+        M.validate E m = .ok (c.allowsPlain (pyV X Y Z)) := by
+  refine ⟨_, parseConstraint_star2 a b, fun txt m ht hm => ?_⟩
+  rw [(createNested_wild E S X Y Z hE a [b] a [b + 1] (by simp) (by simp) txt m ht hm).2]
+  simp [VC.allowsPlain, VC.flatten, RC.allows]
+
+/-- **`X.*` converts exactly** (same statement for a one-component wildcard) -/
+theorem createNested_wildcard1_partial (E : Env) (S : LeafSpec (leafEval E) (CompLeaf E)) (X Y Z : Nat)
+    (hE : EnvPy E X Y Z) (a : Nat) :
+    ∃ c, parseConstraint (Version.relText [a] ++ ".*") = .ok c ∧
+      ∀ txt m, createNestedMarker "python_version" c = .ok txt → parseMarker txt = .ok m →
+        M.validate E m = .ok (c.allowsPlain (pyV X Y Z)) := by
+  refine ⟨_, parseConstraint_star1 a, fun txt m ht hm => ?_⟩
+  rw [(createNested_wild E S X Y Z hE a [] (a + 1) [] (by simp) (by simp) txt m ht hm).2]
+  simp [VC.allowsPlain, VC.flatten, RC.allows]
 
 end Poetry.C11
